@@ -24,18 +24,22 @@ enum Ev {
     Acc(NothingOrError<E>),
     Lr,
     Fol,
+    Fol2,
     Unfol,
     Gs(Output<f32, E>),
+    Gs2(Output<f32, E>),
     Upd,
     Clk(TimeOutput<E>),
     Get,
 }
-/// Events shared by `rec` and `cg`; `acc:` exists only for `rec`, `clk:`/`get` only for `cg`.
+/// Events shared by `rec` and `cg` (`fol`/`gs:` = first scripted getter, `fol2`/`gs2:` = second one); `acc:` exists only for `rec`, `clk:`/`get` only for `cg`.
 fn p_ev(t: &str, is_rec: bool) -> R<Ev> {
     if let Some(r) = t.strip_prefix("set:") {
         Ok(Ev::Set(p_f32(r)?))
     } else if let Some(r) = t.strip_prefix("gs:") {
         Ok(Ev::Gs(Output::<f32, E>::dec(r)?))
+    } else if let Some(r) = t.strip_prefix("gs2:") {
+        Ok(Ev::Gs2(Output::<f32, E>::dec(r)?))
     } else if let Some(r) = t.strip_prefix("acc:") {
         if !is_rec {
             return Err(Bad);
@@ -50,6 +54,7 @@ fn p_ev(t: &str, is_rec: bool) -> R<Ev> {
         match t {
             "lr" => Ok(Ev::Lr),
             "fol" => Ok(Ev::Fol),
+            "fol2" => Ok(Ev::Fol2),
             "unfol" => Ok(Ev::Unfol),
             "upd" => Ok(Ev::Upd),
             "get" if !is_rec => Ok(Ev::Get),
@@ -61,6 +66,7 @@ fn p_ev(t: &str, is_rec: bool) -> R<Ev> {
 fn rec(toks: &[&str], out: &mut Vec<String>) -> R<()> {
     let events = toks[2..].iter().map(|t| p_ev(t, true)).collect::<R<Vec<Ev>>>()?;
     let script = mk::<f32>(Ok(None));
+    let script2 = mk::<f32>(Ok(None));
     let mut r = Rec::<f32>::new();
     let st = r.st.clone();
     for ev in events {
@@ -75,12 +81,20 @@ fn rec(toks: &[&str], out: &mut Vec<String>) -> R<()> {
                 r.follow(as_dyn(&script));
                 dash()
             }
+            Ev::Fol2 => {
+                r.follow(as_dyn(&script2));
+                dash()
+            }
             Ev::Unfol => {
                 r.stop_following();
                 dash()
             }
             Ev::Gs(o) => {
                 set(&script, o);
+                dash()
+            }
+            Ev::Gs2(o) => {
+                set(&script2, o);
                 dash()
             }
             Ev::Upd => {
@@ -101,6 +115,7 @@ fn cg(toks: &[&str], out: &mut Vec<String>) -> R<()> {
     let clock0 = TimeOutput::<E>::dec(toks[3])?;
     let events = toks[4..].iter().map(|t| p_ev(t, false)).collect::<R<Vec<Ev>>>()?;
     let script = mk::<f32>(Ok(None));
+    let script2 = mk::<f32>(Ok(None));
     let clock = mk_time(clock0);
     let mut g = ConstantGetter::<f32, ScriptTime, E>::new(clock.clone(), initial);
     for ev in events {
@@ -116,12 +131,20 @@ fn cg(toks: &[&str], out: &mut Vec<String>) -> R<()> {
                 g.follow(as_dyn(&script));
                 dash()
             }
+            Ev::Fol2 => {
+                g.follow(as_dyn(&script2));
+                dash()
+            }
             Ev::Unfol => {
                 g.stop_following();
                 dash()
             }
             Ev::Gs(o) => {
                 set(&script, o);
+                dash()
+            }
+            Ev::Gs2(o) => {
+                set(&script2, o);
                 dash()
             }
             Ev::Upd => g.update().enc(),
